@@ -386,7 +386,8 @@ theorem map_eq_self {α : Type} (f : α → α) (l : List α) (h : ∀ x ∈ l, 
     simp only [List.map_cons]
     rw [h x (by simp), ih (fun y hy => h y (by simp [hy]))]
 
-theorem openRaw_eq_openDb {d : Chan} (hP : d.PInv) {app mb : String} (side : String) (t : Time)
+theorem openRaw_eq_openDb {d : Chan} (hids : d.mailboxes.Pairwise (fun a b => ¬ a.id = b.id))
+    {app mb : String} (side : String) (t : Time)
     (hc : ¬ d.Clash app mb) : d.openRaw app mb side t = d.openDb app mb side t := by
   unfold openRaw openDb
   cases hm : d.findMailbox app mb with
@@ -397,7 +398,7 @@ theorem openRaw_eq_openDb {d : Chan} (hP : d.PInv) {app mb : String} (side : Str
       apply List.map_congr_left
       intro m hmem
       by_cases hid : m.id = mb
-      · simp [hid, hP.app_of_id hh hmem hid]
+      · simp [hid, app_of_id hids hh hmem hid]
       · simp [hid]
     dsimp only
     cases hs : d.findMbSide mb side <;> simp [touch, insMbSide, hmap]
@@ -474,8 +475,8 @@ theorem mailboxOpen_db (s : Sys) (mb side : String) (t : Time) :
     alone if present; every other row of every table unchanged), everything is committed, no
     connection record and no usage row changes; `crowded` iff the mailbox then has more than two
     side rows. -/
-theorem openMailbox_exact {s s1 : Sys} {app mb side : String} {t : Time} {r : OpenRes}
-    (hP : s.db.PInv) (h : s.openMailbox app mb side t = (s1, r)) :
+theorem openMailbox_exact' {s s1 : Sys} {app mb side : String} {t : Time} {r : OpenRes}
+    (hids : s.db.mailboxes.Pairwise (fun a b => ¬ a.id = b.id)) (h : s.openMailbox app mb side t = (s1, r)) :
     (r = .integrity ↔ s.db.Clash app mb) ∧
     (r = .integrity → s1 = s) ∧
     (r ≠ .integrity → s1.db = s.db.openDb app mb side t ∧ s1.disk = s1.db ∧ SameRest s s1) ∧
@@ -532,7 +533,7 @@ theorem openMailbox_exact {s s1 : Sys} {app mb side : String} {t : Time} {r : Op
           · cases e
           · cases e; exact SameRest.modDb _ _
       exact (h0.trans (mailboxOpen_rest _ _ _ _)).trans (SameRest.commit _)
-    rw [Chan.openRaw_eq_openDb hP side t hnc] at hdb
+    rw [Chan.openRaw_eq_openDb hids side t hnc] at hdb
     dsimp only at h
     split at h
     · rename_i hlen
@@ -547,6 +548,15 @@ theorem openMailbox_exact {s s1 : Sys} {app mb side : String} {t : Time} {r : Op
       rw [hdb] at hlen
       exact ⟨⟨(fun hh => by cases hh), fun hh => absurd hh hnc⟩, (fun hh => by cases hh),
         fun _ => ⟨hdb, by simp, hrest⟩, ⟨(fun hh => by cases hh), fun hh => absurd hh.2 hlen⟩⟩
+
+/-- `openMailbox_exact'` from `PInv` (only the uniqueness of mailbox ids is used) -/
+theorem openMailbox_exact {s s1 : Sys} {app mb side : String} {t : Time} {r : OpenRes}
+    (hP : s.db.PInv) (h : s.openMailbox app mb side t = (s1, r)) :
+    (r = .integrity ↔ s.db.Clash app mb) ∧
+    (r = .integrity → s1 = s) ∧
+    (r ≠ .integrity → s1.db = s.db.openDb app mb side t ∧ s1.disk = s1.db ∧ SameRest s s1) ∧
+    (r = .crowded ↔ ¬ s.db.Clash app mb ∧ ((s.db.openDb app mb side t).mbSidesOf mb).length > 2) :=
+  openMailbox_exact' hP.mbIds h
 
 /-! ### `Mailbox.close` -/
 
